@@ -12,7 +12,9 @@ pub struct Base<'a> {
     pub insts: &'a [AInst],
 }
 
-pub const N_MUTATORS: usize = 18;
+pub const N_MUTATORS: usize = 19;
+
+const TERMINATORS: [&str; 11] = ["Branch", "BranchConditional", "Switch", "Return", "ReturnValue", "Kill", "Unreachable", "TerminateInvocation", "IgnoreIntersectionKHR", "TerminateRayKHR", "EmitMeshTasksEXT"];
 
 fn to_bytes(w: &[u32]) -> Vec<u8> {
     crate::util::words_to_bytes(w)
@@ -408,6 +410,46 @@ pub fn mutate(rng: &mut Rng, b: &Base, m: usize) -> (Vec<u8>, String) {
             w.extend(again);
             w.extend(tail);
             (to_bytes(&w), format!("id %{} of instruction #{} defined again before instruction #{}", id, j + 1, after + 1))
+        }
+        17 => {
+            // bracket damage: a structural instruction (function begin / end, label, terminator; otherwise any
+            // instruction) moved a few places, swapped with its neighbour, removed or repeated -- a function
+            // that ends while its block is open, a terminator outside any function, a label before its function
+            if n == 0 {
+                return (to_bytes(&w), "noop".into());
+            }
+            let structural: Vec<usize> = (0..n)
+                .filter(|j| {
+                    let o = b.insts[*j].opname();
+                    o == "Function" || o == "FunctionEnd" || o == "Label" || o == "FunctionParameter" || TERMINATORS.contains(&o.as_str())
+                })
+                .collect();
+            let j = if !structural.is_empty() && rng.chance(3, 4) { *rng.pick(&structural) } else { rng.below(n) };
+            let mut chunks: Vec<Vec<u32>> = (0..n).map(|i| { let (s, e) = inst_range(i); b.words[s..e].to_vec() }).collect();
+            let what = match rng.below(6) {
+                0 => {
+                    chunks.remove(j);
+                    "removed".to_string()
+                }
+                1 => {
+                    let c = chunks[j].clone();
+                    let at = rng.below(chunks.len() + 1);
+                    chunks.insert(at, c);
+                    format!("repeated before instruction #{}", at + 1)
+                }
+                _ => {
+                    let d = *rng.pick(&[-3i64, -2, -1, -1, 1, 1, 2, 3]);
+                    let to = (j as i64 + d).clamp(0, n as i64 - 1) as usize;
+                    let c = chunks.remove(j);
+                    chunks.insert(to, c);
+                    format!("moved to position #{}", to + 1)
+                }
+            };
+            let mut out = b.words[..b.starts[0]].to_vec();
+            for c in chunks {
+                out.extend(c);
+            }
+            (to_bytes(&out), format!("Op{} (instruction #{}) {}", b.insts[j].opname(), j + 1, what))
         }
         _ => {
             // two mutations stacked
